@@ -85,6 +85,11 @@ def build_case(rng, tier, kind):
             sts.append({"k": "insert", "table": name, "cols": [], "rows": [[i * 12 + j, "r"] for j in range(12)]})
             if i == 120:
                 sts.append({"k": "delete", "table": name, "where": [[(("col", "", "a"), "=", 700)]]})
+            if i == 199:
+                # recent rows changed, then moved to a new page by the splits of the last statements: after the restart
+                # at the end their insert records are redone, their update / delete records name the old page
+                sts.append({"k": "update", "table": name, "sets": [("b", "w")], "where": [[(("col", "", "a"), ">=", 199 * 12 + 5)]]})
+                sts.append({"k": "delete", "table": name, "where": [[(("col", "", "a"), "=", 199 * 12 + 8)]]})
         for key in (5, 600, 1200, 1700, 2300):
             sts.append({"k": "delete", "table": name, "where": [[(("col", "", "a"), "=", key)]]})
         sts.append({"k": "update", "table": name, "sets": [("b", "u")], "where": [[(("col", "", "a"), "<", 30)]]})
